@@ -1217,18 +1217,32 @@ m4_define(`m4_linear_partition_for_polyhedron_domains',
       = static_cast<const C_@CPP_CLASS@&>(*to_const(y));
     std::pair<C_@CPP_CLASS@|COMMA| Pointset_Powerset<NNC_Polyhedron> >
       r = linear_partition(xx, yy);
-    *p_inters = to_nonconst(&r.first);
-    *p_rest = to_nonconst(&r.second);
+    C_@CPP_CLASS@* const r_first = new C_@CPP_CLASS@(r.first);
+    try {
+      *p_rest = to_nonconst(new Pointset_Powerset<NNC_Polyhedron>(r.second));
+    }
+    catch (...) {
+      delete r_first;
+      throw;
+    }
+    *p_inters = to_nonconst(r_first);
  }
  else {
-    const C_@CPP_CLASS@& xx
-      = static_cast<const C_@CPP_CLASS@&>(*to_const(x));
-    const C_@CPP_CLASS@& yy
-      = static_cast<const C_@CPP_CLASS@&>(*to_const(y));
-    std::pair<C_@CPP_CLASS@|COMMA| Pointset_Powerset<NNC_Polyhedron> >
+    const NNC_@CPP_CLASS@& xx
+      = static_cast<const NNC_@CPP_CLASS@&>(*to_const(x));
+    const NNC_@CPP_CLASS@& yy
+      = static_cast<const NNC_@CPP_CLASS@&>(*to_const(y));
+    std::pair<NNC_@CPP_CLASS@|COMMA| Pointset_Powerset<NNC_Polyhedron> >
       r = linear_partition(xx, yy);
-    *p_inters = to_nonconst(&r.first);
-    *p_rest = to_nonconst(&r.second);
+    NNC_@CPP_CLASS@* const r_first = new NNC_@CPP_CLASS@(r.first);
+    try {
+      *p_rest = to_nonconst(new Pointset_Powerset<NNC_Polyhedron>(r.second));
+    }
+    catch (...) {
+      delete r_first;
+      throw;
+    }
+    *p_inters = to_nonconst(r_first);
 }
   return 0;
 
@@ -1242,8 +1256,15 @@ m4_define(`m4_linear_partition_for_non_polyhedron_domains',
       = static_cast<const @CPP_CLASS@&>(*to_const(y));
     std::pair<@CPP_CLASS@|COMMA| Pointset_Powerset<NNC_Polyhedron> >
       r = linear_partition(xx, yy);
-    *p_inters = to_nonconst(&r.first);
-    *p_rest = to_nonconst(&r.second);
+    @CPP_CLASS@* const r_first = new @CPP_CLASS@(r.first);
+    try {
+      *p_rest = to_nonconst(new Pointset_Powerset<NNC_Polyhedron>(r.second));
+    }
+    catch (...) {
+      delete r_first;
+      throw;
+    }
+    *p_inters = to_nonconst(r_first);
   return 0;
 
 ')
@@ -1264,8 +1285,15 @@ ppl_@CLASS@_approximate_@PARTITION@
     bool finite;
     std::pair<@CPP_CLASS@|COMMA| Pointset_Powerset<Grid> >
       r = approximate_partition(xx, yy, finite);
-    *p_inters = to_nonconst(&r.first);
-    *p_rest = to_nonconst(&r.second);
+    @CPP_CLASS@* const r_first = new @CPP_CLASS@(r.first);
+    try {
+      *p_rest = to_nonconst(new Pointset_Powerset<Grid>(r.second));
+    }
+    catch (...) {
+      delete r_first;
+      throw;
+    }
+    *p_inters = to_nonconst(r_first);
     *p_finite = finite ? 1 : 0;
   return 0;
 }
@@ -1423,7 +1451,7 @@ ppl_@CLASS@_wrap_assign
   Variables_Set vars;
   for (ppl_dimension_type i = n; i-- > 0; )
     vars.insert(ds[i]);
-  const Constraint_System* const ccs = to_const(*pcs);
+  const Constraint_System* const ccs = (pcs != 0) ? to_const(*pcs) : 0;
   const bool b = (wrap_individually != 0);
   pph.wrap_assign(vars,
                   bounded_integer_type_width(w),
